@@ -443,7 +443,9 @@ func c9ErrClass(err error) string {
 	case strings.Contains(s, "astits: no more packets"):
 		return "err:ts-init" // mediacommon's MPEG-TS reader could not initialise on the first downloaded segment
 	case strings.Contains(s, "bad status code: 500"):
-		return "err:status500"
+		// disk storage: the handler of a part/segment was looked up, then the segment left the window and its file
+		// was removed before the handler opened it (slow client; the RAM storage answers 404 in the same situation)
+		return "gone"
 	}
 	return "err:other:" + strings.ReplaceAll(s, " ", "_")
 }
